@@ -262,6 +262,11 @@ class CallMixin:
         v = self.ev(node.args[0], st)
         cls = node.args[1]
         names = [ast.unparse(e) for e in cls.elts] if isinstance(cls, ast.Tuple) else [ast.unparse(cls)]
+        if isinstance(v.ty, T.Opt) and all((v.ty.inner.name, n) in self.isinstance_dynamic for n in names):
+            inner = SV(v.ty.val(v.t), v.ty.inner)
+            return SV(z3.And(v.ty.is_some(v.t), z3.Or(*[self.isinstance_dynamic[(inner.ty.name, n)](inner) for n in names])), T.Bool)
+        if all((v.ty.name, n) in self.isinstance_dynamic for n in names):
+            return SV(z3.Or(*[self.isinstance_dynamic[(v.ty.name, n)](v) for n in names]), T.Bool)
         if isinstance(v.ty, T.Union):
             tags = []
             for n in names:
@@ -286,9 +291,13 @@ class CallMixin:
 
     def bi_sorted(self, node, st, want):
         """sorted(set(xs)) / sorted(xs) over ints: a fresh sequence, (strictly) increasing, with the same elements."""
-        if node.keywords:
-            raise Unsupported("sorted() with key/reverse as a value")
         a = node.args[0]
+        if node.keywords:
+            # sorted(S, key=f, reverse=…) with an arbitrary user key: some duplicate-free enumeration of S
+            src = self.ev(a, st)
+            if isinstance(src.ty, T.Set):
+                return self.set_to_seq(st, src)
+            raise Unsupported("sorted() with key/reverse on a non-set as a value")
         strict = False
         if isinstance(a, ast.Call) and isinstance(a.func, ast.Name) and a.func.id == "set" and "set" not in st.env:
             src = self.ev(a.args[0], st)
